@@ -52,12 +52,10 @@ pub trait ChainStore: Send + Sync + Sized {
             return Some(raw_block.into_view());
         }
         let body = self.get_block_body(h);
-        let uncles = self
-            .get_block_uncles(h)
-            .expect("block uncles must be stored");
-        let proposals = self
-            .get_block_proposal_txs_ids(h)
-            .expect("block proposal_ids must be stored");
+        // a block is removed column by column (a block rejected by verification, a truncation):
+        // a reader racing with the removal may still find the header; the block is gone then
+        let uncles = self.get_block_uncles(h)?;
+        let proposals = self.get_block_proposal_txs_ids(h)?;
         let extension_opt = self.get_block_extension(h);
 
         let block = if let Some(extension) = extension_opt {
